@@ -152,3 +152,22 @@ int out_reset(int** out)
   }
   return 0;
 }
+
+/* R16.10: old value freed, replacement fails, field left dangling */
+struct holder { char* text; };
+int replace_text_bad(struct holder* h, size_t n)
+{
+  char* fresh;
+  if (h->text != NULL) yr_free(h->text);
+  fresh = (char*) yr_malloc(n);
+  if (fresh == NULL) return 1;          /* h->text still points to the freed block */
+  h->text = fresh;
+  return 0;
+}
+int replace_text_good(struct holder* h, size_t n)
+{
+  if (h->text != NULL) yr_free(h->text);
+  h->text = (char*) yr_malloc(n);
+  if (h->text == NULL) return 1;
+  return 0;
+}
